@@ -673,21 +673,29 @@ def build_specs(eng):
     @add('C09', 'add_sub_two_numbers', 2)
     def _(eng, rng):
         n = rng.randint(1, 7)
-        m = rng.randint(1, n)
+        m = rng.choice((rng.randint(1, n), rng.randint(1, n), rng.randint(1, n + 3)))
         big = rng.random() < 0.4
+        box = {}
 
         def bind(host, chosen):
             a, b = chosen[:n], chosen[n:]
             la, lb = list(a), list(b)
             return (lambda: A.add_sub_two_numbers(host, la, lb, big_endian=big)), f'add_sub_two_numbers({a},{b},big_endian={big})'
 
+        def results(rv):
+            box['len'] = len(rv)
+            return [_le(rv, big)]
+
         def check(ins, outs, L):
+            tag = 'b-longer' if m > n else 'a-not-shorter'
+            if box['len'] != n:
+                return ('result-length:' + tag, f'{box["len"]} result bits for len(a)={n}, len(b)={m}')
             for j in range(L):
                 if (ins[0][j] - ins[1][j]) % (1 << n) != outs[0][j]:
-                    return ('a-b', f'lane {j}: ({ins[0][j]}-{ins[1][j]}) mod 2^{n} != {outs[0][j]}')
+                    return ('a-b:' + tag, f'lane {j}: ({ins[0][j]}-{ins[1][j]}) mod 2^{n} != {outs[0][j]} (len b={m})')
             return None
 
-        return dict(need=n + m, bind=bind, operands=lambda ch: [_le(ch[:n], big), _le(ch[n:], big)], results=lambda rv: [_le(rv, big)], check=check)
+        return dict(need=n + m, bind=bind, operands=lambda ch: [_le(ch[:n], big), _le(ch[n:], big)], results=results, check=check)
 
     @add('C09', 'add_subtract_with_compare', 3)
     def _(eng, rng):
